@@ -50,6 +50,9 @@ func compileSpec(s ReSpec) (re *regexp2.Regexp, err error) {
 	if s.KeepOrder {
 		opts = append(opts, regexp2.OptionMaintainCaptureOrder())
 	}
+	if s.CodeGen {
+		opts = append(opts, regexp2.OptionIsCodeGen())
+	}
 	re, err = regexp2.Compile(s.Pat, opts...)
 	if err == nil && s.Via == 1 {
 		// what a configuration loader does: the Regexp value in use was filled in by UnmarshalText
@@ -70,7 +73,7 @@ func compileSpec(s ReSpec) (re *regexp2.Regexp, err error) {
 func viaUnmarshal(r *rng, sc *Scenario, num, den int) {
 	for i := range sc.Res {
 		s := &sc.Res[i]
-		if s.Opts == 0 && !s.HasLimit && s.Cache == 0 && s.CacheB == 0 && s.RuneBuf == 0 && s.ReplBuf == 0 && !s.NoBitmap && !s.KeepOrder && r.chance(num, den) {
+		if s.Opts == 0 && !s.HasLimit && s.Cache == 0 && s.CacheB == 0 && s.RuneBuf == 0 && s.ReplBuf == 0 && !s.NoBitmap && !s.KeepOrder && !s.CodeGen && r.chance(num, den) {
 			s.Via = 1
 		}
 	}
